@@ -61,10 +61,16 @@ def process_loop(k, conns, obj, make_key):
     """command loop of process number k"""
     Pauser.conn = conns[k][1]
     conn = conns[k][1]
+    iterator = None
     while True:
         msg = conn.recv()
         try:
-            if msg[0] == "get":
+            if msg[0] == "iter":
+                # one step of `for line in obj` (the iteration is created on its first step, in this process)
+                if iterator is None:
+                    iterator = iter(obj)
+                conn.send(("ret", next(iterator)))
+            elif msg[0] == "get":
                 line = obj[make_key(msg[1])]
                 conn.send(("ret", line))
             elif msg[0] == "next":
@@ -74,6 +80,7 @@ def process_loop(k, conns, obj, make_key):
                 pid = os.fork()
                 if pid == 0:
                     k = j
+                    iterator = None
                     Pauser.conn = conns[k][1]
                     conn = conns[k][1]
                     conn.send(("hello", os.getpid()))
@@ -155,6 +162,14 @@ class ForkTree:
     def seek(self, k, n):
         """start `obj[n]` in process k; returns once it stands right after its seek"""
         self.send(k, "get", n)
+        msg = self.recv(k)
+        if msg[0] != "paused":
+            return msg
+        return ("ok",)
+
+    def seek_iter(self, k):
+        """start the next step of process k's own iteration over the file; returns once it stands right after its seek"""
+        self.send(k, "iter")
         msg = self.recv(k)
         if msg[0] != "paused":
             return msg
